@@ -5,7 +5,7 @@ FAMILIES = ['shutdown', 'latekill']
 PER_FAMILY = (500, 10000)
 
 
-PROOF = S.pool_proof('C05', ['C05_graceful_never_drops', 'C05_graceful_delivers_everything', 'C05_submit_after_shutdown_raises', 'C05_structure', 'C05_shutting_down_manager_is_never_stuck', 'C05_manager_leaves_an_empty_table', 'C05_worker_leaves_through_the_handshake', 'C05_interpreter_exit_order'],
+PROOF = S.pool_proof('C05', ['C05_graceful_never_drops', 'C05_graceful_delivers_everything', 'C05_submit_after_shutdown_raises', 'C05_structure', 'C05_shutting_down_manager_is_never_stuck', 'C05_manager_leaves_an_empty_table', 'C05_worker_leaves_through_the_handshake', 'C05_interpreter_exit_order', 'C05_collected_executor_is_shut_down_gracefully'],
                     'the sentinel hand-shake through a full call queue (more sentinels than slots) and the GC / interpreter-exit triggers are exercised by the simulation, not modelled beyond the flags', extra_gen=['Worker'])
 
 
